@@ -706,6 +706,18 @@ def run_c03(ctx):
                 for m in sorted({x - 1 for x in c0["sweeps_per_phase"]} | set(c0["sweeps_per_phase"])):
                     if m >= 0 and m not in (n_iter, n_iter - 1, n_iter + 1):
                         record(s, dict(maxiter=m), "std")
+        # an ILoad whose phase currents are written with a minus sign (magnitudes, as in the constructor), in every position
+        # of the coverage matrix: behind a source resistance / series element the state must stay physical
+        import matrix as _mx
+        mstates, mcnt = _mx.matrix_states(ctx)
+        res.mc.append(mcnt)
+        for mst in [m for m in mstates if m["kind"] == "ILoad" and m["ph"] == "valued"]:
+            try:
+                sm = _mx.build(mst, rng)
+                sm.set_comp_phases("X", {"run": -0.05, "idle": -0.025})
+            except Exception:
+                continue
+            record(sm, {}, "std")
         # (c): designed steady states with modest drops must be found
         nd = 0
         for st in it:
